@@ -993,4 +993,476 @@ theorem verifyPSS_iff {h : HashAlg} (hk : HashOk h) (pub : Pub) (dg sig : Bytes)
 
 example : HashOk HashAlg.sha512 := hashOk_sha512
 
+/-! ### options structs and stateful arguments (the `seq` stream) -/
+
+/-- `VerifyPSS` never looks at `opts.Hash`: two options values that differ only in `Hash` give the same verdict, which
+    is the verdict under the positional `hash` (a verifier that lets `opts.Hash` override `hash` breaks this). -/
+theorem verifyPSSOpts_ignores_hash (pub : Pub) (hash : Nat) (dg sig : Bytes) (sl : Int) (h₁ h₂ : Nat) :
+    verifyPSSOpts pub hash dg sig (some ⟨sl, h₁⟩) = verifyPSSOpts pub hash dg sig (some ⟨sl, h₂⟩) := rfl
+
+/-- nil options are `PSSSaltLengthAuto` -/
+theorem verifyPSSOpts_nil (pub : Pub) (hash : Nat) (dg sig : Bytes) (h₁ : Nat) :
+    verifyPSSOpts pub hash dg sig none = verifyPSSOpts pub hash dg sig (some ⟨0, h₁⟩) := rfl
+
+/-- `SignPSS`: a set `opts.Hash` replaces the positional hash entirely … -/
+theorem signPSSOpts_override (k : Priv) (hash hash' : Nat) (dg rnd : Bytes) (o : PSSOpts) (ho : o.hash ≠ 0) :
+    signPSSOpts k hash dg (some o) rnd = signPSSOpts k hash' dg (some o) rnd := by
+  simp [signPSSOpts, signPSSHash, ho]
+
+/-- … and an unset one (or nil options) leaves it alone. -/
+theorem signPSSOpts_unset (k : Priv) (hash : Nat) (dg rnd : Bytes) (sl : Int) {ha : HashAlg} (hh : hashAlg hash = some ha) :
+    signPSSOpts k hash dg (some ⟨sl, 0⟩) rnd = some (signPSS k ha dg sl rnd) ∧
+    signPSSOpts k hash dg none rnd = some (signPSS k ha dg 0 rnd) := by
+  simp [signPSSOpts, signPSSHash, pssSaltLength, hh]
+
+/-- sign with options, verify with the same options under the hash `SignPSS` really used: accepted, whatever the
+    `Hash` field of the verifier's options says. -/
+theorem pss_opts_sign_verify {k : Priv} (hk : KeyOk k) (he : 2 ≤ k.e) {hash : Nat} {dg rnd sig : Bytes}
+    {o : Option PSSOpts} (hs : signPSSOpts k hash dg o rnd = some (.ok sig)) (hv : Nat) :
+    verifyPSSOpts k.pub (signPSSHash hash o) dg sig (some ⟨pssSaltLength o, hv⟩) = some (.ok ()) := by
+  unfold signPSSOpts at hs
+  unfold verifyPSSOpts
+  cases hh : hashAlg (signPSSHash hash o) with
+  | none => rw [hh] at hs; contradiction
+  | some ha =>
+    rw [hh] at hs
+    simp only [Option.some.injEq] at hs
+    have := pss_verify_of_sign hk he (hashAlg_ok hh) hs
+    simp only [pssSaltLength] at this ⊢
+    rw [this]
+
+/-- the reader-tracking variants compute what the plain functions compute -/
+theorem signPSSR_fst (k : Priv) (h : HashAlg) (dg : Bytes) (sl : Int) (rnd : Bytes) :
+    (signPSSR k h dg sl rnd).1 = signPSS k h dg sl rnd := by
+  unfold signPSSR signPSS readFull
+  dsimp only
+  split <;> try rfl
+  by_cases hl : rnd.length < ‹Nat› <;> simp [hl]
+
+theorem fixZerosR_fst (s rnd : Bytes) : (fixZerosR s rnd).1 = fixZeros s rnd := by
+  induction s generalizing rnd with
+  | nil => rfl
+  | cons b bs ih =>
+    unfold fixZerosR fixZeros
+    split
+    · cases redraw rnd with
+      | none => rfl
+      | some p => simp [ih]
+    · simp [ih]
+
+theorem nonZeroRandomBytesR_fst (n : Nat) (rnd : Bytes) :
+    (nonZeroRandomBytesR n rnd).1 = nonZeroRandomBytes n rnd := by
+  unfold nonZeroRandomBytesR nonZeroRandomBytes
+  split
+  · rfl
+  · exact fixZerosR_fst _ _
+
+theorem encryptPKCS1v15R_fst (pub : Pub) (rnd msg : Bytes) :
+    (encryptPKCS1v15R pub rnd msg).1 = encryptPKCS1v15 pub rnd msg := by
+  unfold encryptPKCS1v15R encryptPKCS1v15
+  cases checkPub pub with
+  | err => rfl
+  | panic => rfl
+  | ok ne =>
+    obtain ⟨n, e⟩ := ne
+    dsimp only
+    split
+    · rfl
+    · rw [← nonZeroRandomBytesR_fst]
+      cases nonZeroRandomBytesR (sizeBytes n - msg.length - 3) rnd with
+      | mk a b => cases a <;> rfl
+/-- `EncryptOAEP` on a caller-owned hash computes what the stateless model computes, whatever was written to the hash
+    before (it starts with `Reset`) … -/
+theorem encryptOAEPSt_result (h : HashAlg) (pend : Bytes) (pub : Pub) (rnd msg label : Bytes) :
+    (encryptOAEPSt h pend pub rnd msg label).1 = encryptOAEP h pub rnd msg label := by
+  unfold encryptOAEPSt encryptOAEP readFull
+  cases checkPub pub with
+  | err => rfl
+  | panic => rfl
+  | ok ne =>
+    obtain ⟨n, e⟩ := ne
+    dsimp only
+    split
+    · rfl
+    · by_cases hl : rnd.length < h.outSize <;> simp [hl]
+
+/-- … and leaves the hash RESET on every path once the key passed `checkPub` — in particular on the
+    `ErrMessageTooLong` path and when the reader runs dry (an `EncryptOAEP` that hashes the label before the length
+    check and returns without `Reset` breaks this). -/
+theorem encryptOAEPSt_clean (h : HashAlg) (pend : Bytes) (pub : Pub) (rnd msg label : Bytes) {ne : Nat × Nat}
+    (hc : checkPub pub = .ok ne) : (encryptOAEPSt h pend pub rnd msg label).2.1 = [] := by
+  unfold encryptOAEPSt readFull
+  rw [hc]
+  obtain ⟨n, e⟩ := ne
+  dsimp only
+  split
+  · rfl
+  · by_cases hl : rnd.length < h.outSize <;> simp [hl]
+
+/-- in any case it never leaves MORE in the hash than it found -/
+theorem encryptOAEPSt_pend (h : HashAlg) (pend : Bytes) (pub : Pub) (rnd msg label : Bytes) :
+    (encryptOAEPSt h pend pub rnd msg label).2.1 = pend ∨ (encryptOAEPSt h pend pub rnd msg label).2.1 = [] := by
+  cases hc : checkPub pub with
+  | err => left; unfold encryptOAEPSt; rw [hc]
+  | panic => left; unfold encryptOAEPSt; rw [hc]
+  | ok ne => right; exact encryptOAEPSt_clean h pend pub rnd msg label hc
+
+/-- `DecryptOAEP` does NOT reset the hash before hashing the label: on a hash that still holds `pend` it decrypts as
+    if the label were `pend ++ label`. -/
+theorem decryptOAEPSt_label (h : HashAlg) (pend : Bytes) (k : Priv) (ct label : Bytes) :
+    (decryptOAEPSt h pend k ct label).1 = decryptOAEP h h k ct (pend ++ label) := by
+  unfold decryptOAEPSt decryptOAEP
+  cases checkPub k.pub with
+  | err => rfl
+  | panic => rfl
+  | ok ne =>
+    dsimp only
+    split
+    · rfl
+    · cases decrypt k ct false with
+      | err => rfl
+      | panic => rfl
+      | ok em =>
+        cases em with
+        | nil => rfl
+        | cons b0 body =>
+          dsimp only
+          split
+          · rfl
+          · split <;> rfl
+
+/-- on a reset hash it is the stateless `decryptOAEP` (both hashes the same object) -/
+theorem decryptOAEPSt_clean_start (h : HashAlg) (k : Priv) (ct label : Bytes) :
+    (decryptOAEPSt h [] k ct label).1 = decryptOAEP h h k ct label := by
+  rw [decryptOAEPSt_label]; rfl
+
+/-- it leaves the hash as it found it (the three early returns) or reset -/
+theorem decryptOAEPSt_pend (h : HashAlg) (pend : Bytes) (k : Priv) (ct label : Bytes) :
+    (decryptOAEPSt h pend k ct label).2 = pend ∨ (decryptOAEPSt h pend k ct label).2 = [] := by
+  unfold decryptOAEPSt
+  cases checkPub k.pub with
+  | err => left; rfl
+  | panic => left; rfl
+  | ok ne =>
+    dsimp only
+    split
+    · left; rfl
+    · cases decrypt k ct false with
+      | err => left; rfl
+      | panic => left; rfl
+      | ok em =>
+        right
+        cases em with
+        | nil => rfl
+        | cons b0 body =>
+          dsimp only
+          split
+          · rfl
+          · split <;> rfl
+
+/-- a step is a library call (not the caller writing to the shared hash) -/
+def Step.isCall : Step → Bool
+  | .hashWrite _ => false
+  | _ => true
+
+/-- INVARIANT of the shared hash: a library call that finds the hash reset leaves it reset — whether it succeeds or
+    fails, and whichever call it is. -/
+theorem step_clean (h : HashAlg) (st st' : SeqState) (s : Step) (r : Res Bytes) (hp : st.pend = [])
+    (hs : s.isCall = true) (hstep : step h st s = some (r, st')) : st'.pend = [] := by
+  cases s with
+  | hashWrite b => simp [Step.isCall] at hs
+  | encOAEP msg label =>
+    simp only [step, Option.some.injEq, Prod.mk.injEq] at hstep
+    rw [← hstep.2]
+    rcases encryptOAEPSt_pend h st.pend st.key.pub st.rnd msg label with h1 | h1
+    · exact h1.trans hp
+    · exact h1
+  | decOAEP ct label =>
+    simp only [step, Option.some.injEq, Prod.mk.injEq] at hstep
+    rw [← hstep.2]
+    rcases decryptOAEPSt_pend h st.pend st.key ct label with h1 | h1
+    · exact h1.trans hp
+    · exact h1
+  | encV15 msg => simp only [step, Option.some.injEq, Prod.mk.injEq] at hstep; rw [← hstep.2]; exact hp
+  | decV15 ct => simp only [step, Option.some.injEq, Prod.mk.injEq] at hstep; rw [← hstep.2]; exact hp
+  | sessKey ct key => simp only [step, Option.some.injEq, Prod.mk.injEq] at hstep; rw [← hstep.2]; exact hp
+  | keyDecrypt ct opts =>
+    simp only [step] at hstep
+    cases hd : privDecrypt st.key st.rnd ct opts with
+    | none => rw [hd] at hstep; contradiction
+    | some p => rw [hd] at hstep; simp only [Option.some.injEq, Prod.mk.injEq] at hstep; rw [← hstep.2]; exact hp
+  | signPSS hash digest opts =>
+    simp only [step] at hstep
+    cases hd : hashAlg (signPSSHash hash opts) with
+    | none => rw [hd] at hstep; contradiction
+    | some ha => rw [hd] at hstep; simp only [Option.some.injEq, Prod.mk.injEq] at hstep; rw [← hstep.2]; exact hp
+  | verifyPSS hash digest sig opts =>
+    simp only [step] at hstep
+    cases hd : verifyPSSOpts st.key.pub hash digest sig opts with
+    | none => rw [hd] at hstep; contradiction
+    | some ha => rw [hd] at hstep; simp only [Option.some.injEq, Prod.mk.injEq] at hstep; rw [← hstep.2]; exact hp
+  | signV15 hash digest => simp only [step, Option.some.injEq, Prod.mk.injEq] at hstep; rw [← hstep.2]; exact hp
+  | verifyV15 hash digest sig => simp only [step, Option.some.injEq, Prod.mk.injEq] at hstep; rw [← hstep.2]; exact hp
+  | keySign digest opts =>
+    cases opts with
+    | hash hid => simp only [step, Option.some.injEq, Prod.mk.injEq] at hstep; rw [← hstep.2]; exact hp
+    | pss o =>
+      simp only [step] at hstep
+      cases hd : hashAlg (signPSSHash o.hash (some o)) with
+      | none => rw [hd] at hstep; contradiction
+      | some ha => rw [hd] at hstep; simp only [Option.some.injEq, Prod.mk.injEq] at hstep; rw [← hstep.2]; exact hp
+  | precompute qinv => simp only [step, Option.some.injEq, Prod.mk.injEq] at hstep; rw [← hstep.2]; exact hp
+
+/-- the states a sequence passes through (it stops at a call the model has no hash for) -/
+def states (h : HashAlg) : SeqState → List Step → List SeqState
+  | st, [] => [st]
+  | st, s :: rest =>
+    st :: (match step h st s with
+           | none => []
+           | some (_, st') => states h st' rest)
+
+/-- a sequence of library calls started on a reset hash never leaves anything in the hash between two calls … -/
+theorem states_clean (h : HashAlg) (steps : List Step) (st : SeqState) (hp : st.pend = [])
+    (hcalls : ∀ s ∈ steps, s.isCall = true) : ∀ st' ∈ states h st steps, st'.pend = [] := by
+  induction steps generalizing st with
+  | nil => intro st' hm; simp only [states, List.mem_singleton] at hm; rw [hm]; exact hp
+  | cons s rest ih =>
+    intro st' hm
+    simp only [states, List.mem_cons] at hm
+    rcases hm with rfl | hm
+    · exact hp
+    · cases hs : step h st s with
+      | none => rw [hs] at hm; simp at hm
+      | some p =>
+        obtain ⟨r, st2⟩ := p
+        rw [hs] at hm
+        exact ih st2 (step_clean h st st2 s r hp (hcalls s (by simp)) hs)
+          (fun s' hs' => hcalls s' (by simp [hs'])) st' hm
+
+/-- … so every `DecryptOAEP` of such a sequence — after any number of failed or successful earlier calls — returns
+    what the stateless function returns for its own ciphertext and label, and every `EncryptOAEP` likewise. -/
+theorem step_decOAEP_clean (h : HashAlg) (st : SeqState) (ct label : Bytes) (hp : st.pend = []) :
+    ∃ st', step h st (.decOAEP ct label) = some (decryptOAEP h h st.key ct label, st') ∧ st'.pend = [] := by
+  refine ⟨{ st with pend := (decryptOAEPSt h st.pend st.key ct label).2 }, ?_, ?_⟩
+  · simp only [step]
+    rw [← decryptOAEPSt_clean_start, hp]
+  · show (decryptOAEPSt h st.pend st.key ct label).2 = []
+    rcases decryptOAEPSt_pend h st.pend st.key ct label with h1 | h1
+    · exact h1.trans hp
+    · exact h1
+
+theorem step_encOAEP_result (h : HashAlg) (st : SeqState) (msg label : Bytes) :
+    ∃ st', step h st (.encOAEP msg label) = some (encryptOAEP h st.key.pub st.rnd msg label, st') := by
+  refine ⟨{ st with pend := (encryptOAEPSt h st.pend st.key.pub st.rnd msg label).2.1,
+                      rnd := (encryptOAEPSt h st.pend st.key.pub st.rnd msg label).2.2 }, ?_⟩
+  simp only [step]
+  rw [encryptOAEPSt_result]
+
+/-- what goes wrong otherwise: after the caller (or a call that forgot to `Reset`) left `junk` in the hash, `DecryptOAEP`
+    checks the ciphertext against the label `junk ++ label`. -/
+theorem step_decOAEP_dirty (h : HashAlg) (st : SeqState) (ct label : Bytes) :
+    ∃ st', step h st (.decOAEP ct label) = some (decryptOAEP h h st.key ct (st.pend ++ label), st') := by
+  refine ⟨{ st with pend := (decryptOAEPSt h st.pend st.key ct label).2 }, ?_⟩
+  simp only [step]
+  rw [decryptOAEPSt_label]
+/-- `DecryptPKCS1v15` is the unexported `decryptPKCS1v15` plus the `valid` test -/
+theorem decryptPKCS1v15_core (k : Priv) (ct : Bytes) {ne : Nat × Nat} (hc : checkPub k.pub = .ok ne) :
+    decryptPKCS1v15 k ct =
+      match decryptPKCS1v15Core k ct with
+      | .err => .err
+      | .panic => .panic
+      | .ok (valid, em, index) => if valid then .ok (em.drop index) else .err := by
+  unfold decryptPKCS1v15 decryptPKCS1v15Core
+  rw [hc]
+  dsimp only
+  split
+  · rfl
+  · cases decrypt k ct false with
+    | err => rfl
+    | panic => rfl
+    | ok em =>
+      match em with
+      | [] => rfl
+      | [_] => rfl
+      | b0 :: b1 :: rest =>
+        dsimp only
+        cases firstZeroFrom2 (b0 :: b1 :: rest) with
+        | none => rfl
+        | some idx =>
+          dsimp only
+          by_cases hv : b0 = 0 ∧ b1 = 2 ∧ 10 ≤ idx <;> simp [hv]
+
+/-- `DecryptPKCS1v15SessionKey` never changes the LENGTH of the key buffer … -/
+theorem decryptSessionKey_length {k : Priv} {ct key key' : Bytes} (h : decryptSessionKey k ct key = .ok key') :
+    key'.length = key.length := by
+  unfold decryptSessionKey at h
+  cases hc : checkPub k.pub with
+  | err => rw [hc] at h; contradiction
+  | panic => rw [hc] at h; contradiction
+  | ok ne =>
+    rw [hc] at h
+    dsimp only at h
+    split at h
+    · contradiction
+    · next hroom =>
+      cases hd : decryptPKCS1v15Core k ct with
+      | err => rw [hd] at h; contradiction
+      | panic => rw [hd] at h; contradiction
+      | ok t =>
+        obtain ⟨valid, em, index⟩ := t
+        rw [hd] at h
+        dsimp only at h
+        split at h
+        · contradiction
+        · next hlen =>
+          split at h
+          · injection h with h
+            rw [← h, List.length_drop]
+            have : em.length = sizeBytes k.n := by simpa using hlen
+            omega
+          · injection h with h; rw [h]
+
+/-- … and its content is either left alone or replaced by exactly the message `DecryptPKCS1v15` returns (which then has
+    the length of the buffer). -/
+theorem decryptSessionKey_content {k : Priv} {ct key key' : Bytes} (h : decryptSessionKey k ct key = .ok key') :
+    key' = key ∨ (decryptPKCS1v15 k ct = .ok key' ∧ key'.length = key.length) := by
+  have hlen := decryptSessionKey_length h
+  unfold decryptSessionKey at h
+  cases hc : checkPub k.pub with
+  | err => rw [hc] at h; contradiction
+  | panic => rw [hc] at h; contradiction
+  | ok ne =>
+    rw [hc] at h
+    dsimp only at h
+    split at h
+    · contradiction
+    · cases hd : decryptPKCS1v15Core k ct with
+      | err => rw [hd] at h; contradiction
+      | panic => rw [hd] at h; contradiction
+      | ok t =>
+        obtain ⟨valid, em, index⟩ := t
+        rw [hd] at h
+        dsimp only at h
+        split at h
+        · contradiction
+        · split at h
+          · next hv =>
+            right
+            injection h with h
+            refine ⟨?_, hlen⟩
+            rw [decryptPKCS1v15_core k ct hc, hd]
+            dsimp only
+            rw [if_pos hv.1, ← h]
+            have hk : em.length - index = key.length := hv.2
+            have e : em.drop index = em.drop (em.length - key.length) := by
+              by_cases h0 : key.length = 0
+              · rw [List.drop_eq_nil_of_le (by omega), List.drop_eq_nil_of_le (by omega)]
+              · congr 1; omega
+            rw [e]
+          · left; injection h with h; exact h.symm
+
+/-- `PrivateKey.Decrypt` with `SessionKeyLen = l > 0` returns `l` octets whenever it returns at all. -/
+theorem privDecrypt_sessionKeyLen {k : Priv} {rnd ct pt rnd' : Bytes} {l : Int} (hl : 0 < l)
+    (h : privDecrypt k rnd ct (.v15 l) = some (.ok pt, rnd')) : (pt.length : Int) = l := by
+  simp only [privDecrypt, readFull] at h
+  rw [if_pos (show l > 0 from hl)] at h
+  by_cases hr : rnd.length < l.toNat
+  · simp [hr] at h
+  · simp only [hr, if_false] at h
+    cases hd : decryptSessionKey k ct (rnd.take l.toNat) with
+    | err => rw [hd] at h; simp at h
+    | panic => rw [hd] at h; simp at h
+    | ok key' =>
+      rw [hd] at h
+      simp only [Option.some.injEq, Prod.mk.injEq, Res.ok.injEq] at h
+      have := decryptSessionKey_length hd
+      rw [← h.1, this, List.length_take]
+      omega
+
+/-- with `SessionKeyLen ≤ 0` (or nil options) it is `DecryptPKCS1v15` and reads nothing. -/
+theorem privDecrypt_plain (k : Priv) (rnd ct : Bytes) {l : Int} (hl : l ≤ 0) :
+    privDecrypt k rnd ct (.v15 l) = some (decryptPKCS1v15 k ct, rnd) ∧
+    privDecrypt k rnd ct .nil = some (decryptPKCS1v15 k ct, rnd) := by
+  simp only [privDecrypt]
+  rw [if_neg (show ¬ l > 0 by omega)]
+  exact ⟨rfl, trivial⟩
+
+/-- `OAEPOptions.MGFHash = 0` means "the label hash" -/
+theorem privDecrypt_oaep_mgf_default (k : Priv) (rnd ct label : Bytes) (hash : Nat) :
+    privDecrypt k rnd ct (.oaep hash 0 label) = privDecrypt k rnd ct (.oaep hash hash label) := by
+  simp only [privDecrypt]
+  by_cases hz : hash = 0 <;> simp [hz]
+
+example : privDecrypt toyKey [] [5] (.v15 0) = some (decryptPKCS1v15 toyKey [5], []) := (privDecrypt_plain _ _ _ (by decide)).1
+/-- the point of `DecryptPKCS1v15SessionKey`: on a valid key, for every ciphertext below the modulus and every key
+    buffer that leaves room for the minimal padding, it returns NO error — valid and invalid paddings are not
+    distinguishable by the result kind (only by the buffer contents, `decryptSessionKey_content`). -/
+theorem decryptSessionKey_total {k : Priv} (hk : KeyOk k) (he : 2 ≤ k.e) (ct key : Bytes)
+    (hroom : key.length + 11 ≤ sizeBytes k.n) (hlt : os2ip ct < k.n) :
+    ∃ key', decryptSessionKey k ct key = .ok key' := by
+  unfold decryptSessionKey
+  rw [hk.checkPub_eq he]
+  dsimp only
+  rw [if_neg (by omega)]
+  unfold decryptPKCS1v15Core
+  rw [if_neg (by omega)]
+  rcases decrypt_total hk ct false with herr | ⟨em, hem, hl⟩
+  · exfalso
+    unfold decrypt at herr
+    rw [if_neg (by omega)] at herr
+    dsimp only at herr
+    split at herr
+    · contradiction
+    · cases hi : i2osp (sizeBytes k.n) (decryptCore k (os2ip ct)) with
+      | ok a => rw [hi] at herr; contradiction
+      | panic => rw [hi] at herr; contradiction
+      | err => unfold i2osp at hi; split at hi <;> contradiction
+  · rw [hem]
+    dsimp only
+    match em, hl with
+    | [], hl => simp at hl; omega
+    | [_], hl => simp at hl; omega
+    | b0 :: b1 :: rest, hl =>
+      dsimp only
+      cases firstZeroFrom2 (b0 :: b1 :: rest) with
+      | none =>
+        dsimp only
+        rw [if_neg (by simp [hl])]
+        simp
+      | some idx =>
+        dsimp only
+        by_cases hv : b0 = 0 ∧ b1 = 2 ∧ 10 ≤ idx
+        · rw [if_pos hv]
+          dsimp only
+          rw [if_neg (by simp [hl])]
+          split <;> exact ⟨_, rfl⟩
+        · rw [if_neg hv]
+          dsimp only
+          rw [if_neg (by simp [hl])]
+          simp
+
+/-- the hypotheses hold for `key40` (78 octets) and a 16-octet session key: the buffer keeps its length -/
+example (key : Bytes) (h16 : key.length = 16) :
+    ∃ key', decryptSessionKey key40 [] key = .ok key' ∧ key'.length = 16 := by
+  obtain ⟨key', h⟩ := decryptSessionKey_total key40_ok (by decide) [] key (by rw [h16, key40_size.1]; decide)
+    (by show 0 < key40.n; exact key40_ok.n_pos)
+  exact ⟨key', h, (decryptSessionKey_length h).trans h16⟩
+
+/-- `signPSSOpts` under `key40`: the positional hash says SHA-1 (3), `opts.Hash` says SHA-256 (5) and wins; the
+    signature verifies under SHA-256 whatever the verifier's `opts.Hash` says (`pss_opts_sign_verify`). -/
+example (dg salt : Bytes) (hd : dg.length = 32) (hs : salt.length = 32) :
+    ∃ sig, signPSSOpts key40 3 dg (some ⟨-1, 5⟩) salt = some (.ok sig) ∧
+      verifyPSSOpts key40.pub 5 dg sig (some ⟨-1, 3⟩) = some (.ok ()) := by
+  obtain ⟨sig, h1, _, _, _⟩ := pss_sign_verify key40_ok (by decide) hashOk_sha256 dg salt hd
+    (by rw [hs, key40_size.2]; decide)
+  have hsign : signPSSOpts key40 3 dg (some ⟨-1, 5⟩) salt = some (.ok sig) := by
+    have : signPSS key40 .sha256 dg (-1) salt = .ok sig := by
+      unfold signPSS
+      simp only [show ((-1 : Int) = 0) = False by decide, if_false, if_true]
+      show (if salt.length < 32 then Res.err else signPSSWithSalt key40 .sha256 dg (salt.take 32)) = .ok sig
+      rw [if_neg (by omega), ← hs, List.take_length]
+      exact h1
+    simp [signPSSOpts, signPSSHash, hashAlg, pssSaltLength, this]
+  exact ⟨sig, hsign, pss_opts_sign_verify key40_ok (by decide) hsign 3⟩
+
 end ZV.C23
